@@ -19,6 +19,7 @@ import (
 
 	"github.com/mgtv-tech/redis-GunYu/config"
 	"github.com/mgtv-tech/redis-GunYu/pkg/rdb"
+	"github.com/mgtv-tech/redis-GunYu/pkg/redis/checkpoint"
 	"github.com/mgtv-tech/redis-GunYu/pkg/vfdoubles"
 	"github.com/mgtv-tech/redis-GunYu/pkg/vfutil"
 )
@@ -93,6 +94,91 @@ type Case struct {
 	// (source DB → target DB). Pre DBs are TARGET DBs.
 	TDB   int      `json:"tdb,omitempty"`
 	DBMap [][2]int `json:"dbmap,omitempty"`
+	// output filter: FDB = DB black list (SOURCE DBs), FPre = key prefix black list (hex, SOURCE keys).
+	// A filtered entry must touch nothing; a filtered key in a new DB still costs the SELECT.
+	FDB  []int    `json:"fdb,omitempty"`
+	FPre []string `json:"fpre,omitempty"`
+	// back-pressure (mode send): PipeSize > 0 = config.RdbPipeSize for the run (the worker pipes hold PipeSize / Parallel
+	// entries, at least 1); Slow > 0 = the target answers every request after Slow ms (virtual): the pipes are full
+	// while the distributor sends
+	PipeSize int `json:"pipesize,omitempty"`
+	Slow     int `json:"slow,omitempty"`
+}
+
+// ReservedPrefixes: key prefixes every output filters (NewRedisOutput: checkpoint and namespace keys; the bisync control keys).
+func ReservedPrefixes() []string {
+	return []string{config.CheckpointKey, config.NamespacePrefixKey, checkpoint.BisyncKeyPrefix + ":"}
+}
+
+// Filtered: what the configuration documents for the output filter (the harness's reading, independent of pkg/filter).
+func (c *Case) Filtered(db int, key []byte) bool {
+	for _, d := range c.FDB {
+		if d == db {
+			return true
+		}
+	}
+	for _, p := range ReservedPrefixes() {
+		if strings.HasPrefix(string(key), p) {
+			return true
+		}
+	}
+	for _, p := range c.FPre {
+		if strings.HasPrefix(string(key), string(vfutil.UnHex(p))) {
+			return true
+		}
+	}
+	return false
+}
+
+// Cell: the target cell a snapshot key is replayed to.
+func (c *Case) Cell(k KVSpec) DK {
+	return DK{c.TDBOf(k.DB), string(c.TKey(vfutil.UnHex(k.Key)))}
+}
+
+// Collides: two snapshot keys that pass the filter are replayed to ONE target cell (TargetDb / a non-injective
+// TargetDbMap with one key name in two source DBs, `{a}b` + `ab` under replaceHashTag, a key twice in one DB).
+func (c *Case) Collides() bool {
+	seen := map[DK]bool{}
+	for _, k := range c.KVs {
+		if c.Filtered(k.DB, vfutil.UnHex(k.Key)) {
+			continue
+		}
+		if seen[c.Cell(k)] {
+			return true
+		}
+		seen[c.Cell(k)] = true
+	}
+	return false
+}
+
+// CollisionCells: target cells that more than one snapshot key (passing the filter) is replayed to.
+func (c *Case) CollisionCells() map[DK]bool {
+	n := map[DK]int{}
+	for _, k := range c.KVs {
+		if !c.Filtered(k.DB, vfutil.UnHex(k.Key)) {
+			n[c.Cell(k)]++
+		}
+	}
+	out := map[DK]bool{}
+	for k, v := range n {
+		if v > 1 {
+			out[k] = true
+		}
+	}
+	return out
+}
+
+// Simple: the sequential oracle (CheckSeq / CheckCells) applies: no injected faults, no module values, no restart.
+func (c *Case) Simple() bool {
+	if len(c.Bad) > 0 || c.Window != "" || c.Cut > 0 {
+		return false
+	}
+	for _, k := range c.KVs {
+		if k.Type == 7 {
+			return false
+		}
+	}
+	return true
 }
 
 // TDBOf: the target DB of a source DB (RedisOutput.selectDB).
@@ -130,15 +216,24 @@ func (c *Case) TKey(key []byte) []byte {
 
 // TargetKVs: the snapshot's keys as they are expected on the target.
 func (c *Case) TargetKVs() []KV {
-	kvs := c.KVList()
-	for i := range kvs {
-		kvs[i].Key = c.TKey(kvs[i].Key)
-		kvs[i].DB = c.TDBOf(kvs[i].DB)
-		if kvs[i].Type == 15 {
-			kvs[i].Ops = streamOpsFor(SmallStreamG(string(kvs[i].Key), "field", c.KVs[i].Group).Ops, c.Ver) // the commands name the key
+	var out []KV
+	for i, kv := range c.KVList() {
+		if c.Filtered(kv.DB, kv.Key) {
+			continue // never replayed
 		}
+		out = append(out, c.TargetKV(i, kv))
 	}
-	return kvs
+	return out
+}
+
+// TargetKV: snapshot key i as it is expected on the target.
+func (c *Case) TargetKV(i int, kv KV) KV {
+	kv.Key = c.TKey(kv.Key)
+	kv.DB = c.TDBOf(kv.DB)
+	if kv.Type == 15 {
+		kv.Ops = streamOpsFor(SmallStreamG(string(kv.Key), "field", c.KVs[i].Group).Ops, c.Ver) // the commands name the key
+	}
+	return kv
 }
 
 // NormalPolicy: what the configuration documents for a policy string.
@@ -378,6 +473,9 @@ func (c *Case) Keys() []DK {
 		if c.TDBOf(k.DB) != k.DB {
 			m[DK{k.DB, string(c.TKey(vfutil.UnHex(k.Key)))}] = true // nothing may appear in the unmapped DB
 		}
+		if c.Filtered(k.DB, vfutil.UnHex(k.Key)) {
+			m[DK{k.DB, string(vfutil.UnHex(k.Key))}] = true // nothing of a filtered key may appear anywhere
+		}
 	}
 	for _, p := range c.Pre {
 		m[DK{p.DB, string(vfutil.UnHex(p.Key))}] = true
@@ -426,8 +524,8 @@ func renderReq(e vfdoubles.LogEntry) string {
 	return e.String()
 }
 
-// Emit writes the op line and the implementation's answer lines.
-func Emit(s *vfutil.Session, idx int, c *Case, r *Run) {
+// OpLine: the op line `<name> tag=<idx> … ents=…` of a case for the Lean driver (mode as given) and the cells it asks for.
+func OpLine(name string, idx int, c *Case, r *Run, mode string) (string, []DK) {
 	var ents []string
 	for _, e := range r.Ents {
 		ents = append(ents, e.Render(c.Restore))
@@ -472,8 +570,28 @@ func Emit(s *vfutil.Session, idx int, c *Case, r *Run) {
 		}
 		rht += " dbmap=" + strings.Join(ms, ",")
 	}
-	op := fmt.Sprintf("c20 tag=%d"+rht+" mode=%s pol=%s restore=%s maxbulk=%d ver5=%s now=%d pre=%s bad=%s fin=%s ents=%s", idx, c.Mode, c.Pol[:1],
+	if len(c.FDB) > 0 {
+		var ds []string
+		for _, d := range c.FDB {
+			ds = append(ds, strconv.Itoa(d))
+		}
+		rht += " fdb=" + strings.Join(ds, ",")
+	}
+	{
+		var ps []string
+		for _, p := range ReservedPrefixes() {
+			ps = append(ps, vfutil.HexS(p))
+		}
+		rht += " fpre=" + strings.Join(append(ps, c.FPre...), ",")
+	}
+	op := fmt.Sprintf(name+" tag=%d"+rht+" mode=%s pol=%s restore=%s maxbulk=%d ver5=%s now=%d pre=%s bad=%s fin=%s ents=%s", idx, mode, c.Pol[:1],
 		b01(c.Restore), c.MaxBulk, ver5, int64(BubbleNowMs), join(pre, ","), join(c.Bad, ","), join(fin, ","), join(ents, ";"))
+	return op, ks
+}
+
+// Emit writes the op line and the implementation's answer lines.
+func Emit(s *vfutil.Session, idx int, c *Case, r *Run) {
+	op, ks := OpLine("c20", idx, c, r, c.Mode)
 	var out []string
 	li := 0
 	if c.Mode == "plain" {
@@ -597,7 +715,7 @@ func Check(s *vfutil.Session, c *Case, r *Run) {
 				existed := pre[k] && r.Before[k] != nil
 				restorePath := false
 				for _, e := range r.Ents {
-					if string(c.TKey(e.Key)) == string(kv.Key) && c.TDBOf(e.DB) == kv.DB {
+					if string(c.TKey(e.Key)) == string(kv.Key) && c.TDBOf(e.DB) == kv.DB && !c.Filtered(e.DB, e.Key) {
 						restorePath = c.Restore && e.CanRestore && e.DumpSize <= c.MaxBulk && !e.Splited
 						break
 					}
@@ -621,7 +739,7 @@ func Check(s *vfutil.Session, c *Case, r *Run) {
 				if kv.Type == 7 {
 					restorePath := false
 					for _, e := range r.Ents {
-						if string(c.TKey(e.Key)) == string(kv.Key) && c.TDBOf(e.DB) == kv.DB {
+						if string(c.TKey(e.Key)) == string(kv.Key) && c.TDBOf(e.DB) == kv.DB && !c.Filtered(e.DB, e.Key) {
 							restorePath = c.Restore && e.CanRestore && e.DumpSize <= c.MaxBulk && !e.Splited
 						}
 					}
@@ -652,7 +770,7 @@ func Check(s *vfutil.Session, c *Case, r *Run) {
 	}
 	viaRestore := func(kv KV) bool {
 		for _, e := range r.Ents {
-			if string(c.TKey(e.Key)) == string(kv.Key) && c.TDBOf(e.DB) == kv.DB {
+			if string(c.TKey(e.Key)) == string(kv.Key) && c.TDBOf(e.DB) == kv.DB && !c.Filtered(e.DB, e.Key) {
 				return c.Restore && e.CanRestore && e.DumpSize <= c.MaxBulk && !e.Splited && !c.IsBad(kv.Key)
 			}
 		}
@@ -771,6 +889,418 @@ func Check(s *vfutil.Session, c *Case, r *Run) {
 			}
 		}
 	}
+	CheckFiltered(s, c, r, snap)
+}
+
+// CheckFiltered: a filtered entry touches nothing — neither its own (DB, key), nor the cell it would have been mapped
+// to, unless a key that passes the filter is replayed there; no write request names it.
+func CheckFiltered(s *vfutil.Session, c *Case, r *Run, snap map[DK]bool) {
+	for _, kv := range c.KVList() {
+		if !c.Filtered(kv.DB, kv.Key) {
+			continue
+		}
+		s.Count("mon_filtered_key")
+		for _, k := range []DK{{kv.DB, string(kv.Key)}, {c.TDBOf(kv.DB), string(c.TKey(kv.Key))}, {c.TDBOf(kv.DB), string(kv.Key)}, {kv.DB, string(c.TKey(kv.Key))}} {
+			if snap[k] {
+				continue
+			}
+			if _, ok := r.Before[k]; !ok {
+				continue
+			}
+			if !SameVal(r.Before[k], r.After[k]) {
+				viol(s, "filtered-key-written", fmt.Sprintf("key %q of source DB %d is filtered out, but cell (db %d, %q) changed: %+v -> %+v", kv.Key, kv.DB, k.DB, k.Key, r.Before[k], r.After[k]), c)
+			}
+			for _, q := range r.Log {
+				if len(q.Args) >= 2 && string(q.Args[1]) == k.Key && q.DB == k.DB && q.Cmd() != "select" {
+					viol(s, "filtered-key-touched", fmt.Sprintf("key %q of source DB %d is filtered out, but a request names it: %s", kv.Key, kv.DB, q.String()), c)
+					break
+				}
+			}
+		}
+	}
+}
+
+// firstBins: the first bin of every keyed value, in stream order (one per snapshot key).
+func firstBins(r *Run) []Ent {
+	var out []Ent
+	for _, e := range r.Ents {
+		if (e.OType == "d" || e.OType == "m") && e.First {
+			out = append(out, e)
+		}
+	}
+	return out
+}
+
+var skipSample []string
+
+// SkipSample: cases the sequential oracle could not judge (diagnostics).
+func SkipSample() []string { return skipSample }
+
+type seqState struct {
+	val   *vfdoubles.Val
+	by    int  // index of the snapshot key that wrote it, -1 = the target's own
+	multi bool // more than one snapshot key was replayed to this cell
+}
+
+// seqOracle: the key-exists policy applied literally, snapshot key after snapshot key in stream order, to the target
+// cell of every key that passes the filter — a key an earlier entry of this run created IS an existing key for a later
+// one (Props/C20Collide.lean). Independent of the code under test and of the Lean model.
+// Returns the expected final cells, the index of the failing key (-1: none) and, per cell, the failing index (error).
+func seqOracle(c *Case, r *Run) (cur map[DK]*seqState, failAt int, ok bool) {
+	kvs := c.KVList()
+	fb := firstBins(r)
+	if len(fb) != len(kvs) {
+		if len(skipSample) < 3 {
+			skipSample = append(skipSample, fmt.Sprintf("%d first bins, %d keys: %s", len(fb), len(kvs), c.JSON()))
+		}
+		return nil, -1, false
+	}
+	cur = map[DK]*seqState{}
+	for k, v := range r.Before {
+		if v != nil {
+			cur[k] = &seqState{val: v, by: -1}
+		}
+	}
+	failAt = -1
+	for i, kv := range kvs {
+		if c.Filtered(kv.DB, kv.Key) {
+			continue
+		}
+		tkv := c.TargetKV(i, kv)
+		cell := DK{tkv.DB, string(tkv.Key)}
+		e := fb[i]
+		via := c.Restore && e.CanRestore && e.DumpSize <= c.MaxBulk && !e.Splited
+		want := &seqState{val: ExpectVal(tkv, via, BubbleNowMs), by: i}
+		old := cur[cell]
+		if old != nil && (old.by >= 0 || old.multi) {
+			want.multi = true
+		}
+		switch c.Pol {
+		case "replace":
+			cur[cell] = want
+		case "ignore":
+			if old == nil {
+				cur[cell] = want
+			} else {
+				old.multi = old.multi || old.by >= 0
+			}
+		default:
+			if old != nil {
+				return cur, i, true
+			}
+			cur[cell] = want
+		}
+	}
+	return cur, -1, true
+}
+
+// notMerged: whatever reading is taken for a collision cell, what it ends with is nothing, the target's own value or
+// exactly ONE of the snapshot values replayed to it ("exactly the snapshot's value", "nothing is merged") - judged
+// only for complete runs.
+func notMerged(s *vfutil.Session, c *Case, r *Run, k DK) {
+	if r.Final != "ok" || r.After[k] == nil || (r.Before[k] != nil && SameVal(r.Before[k], r.After[k])) {
+		return
+	}
+	for i, kv := range c.KVList() {
+		if c.Filtered(kv.DB, kv.Key) {
+			continue
+		}
+		tkv := c.TargetKV(i, kv)
+		if tkv.DB != k.DB || string(tkv.Key) != k.Key {
+			continue
+		}
+		for _, via := range []bool{false, true} {
+			if SameVal(ExpectVal(tkv, via, BubbleNowMs), r.After[k]) {
+				return
+			}
+		}
+	}
+	viol(s, "collide-merged", fmt.Sprintf("cell (db %d, %q), which several snapshot keys are replayed to, ends with %+v: none of their values (a merge)", k.DB, k.Key, r.After[k]), c)
+}
+
+// CheckSeq: ONE worker (modes plain / wplain / bisync) against the sequential oracle: outcome and the final value of
+// every cell the case names.
+// What is a VIOLATION and what is a PIN. The property speaks about snapshots whose keys are distinct and about keys the
+// target held BEFORE the run. On a COLLISION cell (two snapshot keys replayed to it by configuration) "a key this run
+// created is an existing key" is the reading the code implements (Props/C20Collide.lean), not a sentence of the
+// property: a difference there is not reported as a violation - it is PINNED by the correspondence (the request diff of
+// the c20 op for one worker, the c20pin / c20route ops for N workers: a change shows as a broken tie, "re-read the
+// model"). Violations stay: every non-collision cell; cells the target held at the start under ignore / error
+// (unchanged, collision or not); the outcome unless the oracle's stop is itself a collision.
+func CheckSeq(s *vfutil.Session, c *Case, r *Run) {
+	cur, failAt, ok := seqOracle(c, r)
+	if !ok {
+		s.Count("seq_oracle_skipped")
+		return
+	}
+	s.Count("mon_seq")
+	coll := c.CollisionCells()
+	if len(coll) > 0 {
+		s.Count("mon_seq_colliding_" + c.Pol)
+	}
+	kvs := c.KVList()
+	heldUnchanged := func() {
+		if c.Pol == "replace" {
+			return
+		}
+		for k, v := range r.Before {
+			if v != nil && !SameVal(v, r.After[k]) {
+				viol(s, c.Pol+"-modified", fmt.Sprintf("policy %s: cell (db %d, %q) the target held at the start changed: %+v -> %+v", c.Pol, k.DB, k.Key, v, r.After[k]), c)
+			}
+		}
+	}
+	if failAt >= 0 {
+		fc := DK{c.TDBOf(kvs[failAt].DB), string(c.TKey(kvs[failAt].Key))}
+		if coll[fc] && r.Before[fc] == nil {
+			// the stop is the pinned reading (the key met was created by this run): only the held cells are judged
+			s.Count("pin_collide_stop")
+			heldUnchanged()
+			return
+		}
+	}
+	wantFinal := "ok"
+	if failAt >= 0 {
+		wantFinal = "err-exists"
+	}
+	if r.Final != wantFinal {
+		viol(s, "seq-outcome", fmt.Sprintf("policy %s applied key after key says %s (failing key index %d), the replay ended %s (%s)", c.Pol, wantFinal, failAt, r.Final, r.ErrText), c)
+		return
+	}
+	if failAt >= 0 && r.FailKey != string(c.TKey(kvs[failAt].Key)) {
+		viol(s, "seq-outcome", fmt.Sprintf("policy error: the replay must stop at key %q, the error names %q", c.TKey(kvs[failAt].Key), r.FailKey), c)
+	}
+	for _, k := range c.Keys() {
+		var want *vfdoubles.Val
+		st := cur[k]
+		if st != nil {
+			want = st.val
+		}
+		if coll[k] && !(c.Pol != "replace" && r.Before[k] != nil) {
+			s.Count("pin_collide_cell")
+			notMerged(s, c, r, k)
+			continue // which value: pinned by the request diff, not judged here
+		}
+		if !SameVal(want, r.After[k]) {
+			viol(s, "seq-final", fmt.Sprintf("cell (db %d, %q): policy %s applied key after key leaves %+v, the target holds %+v", k.DB, k.Key, c.Pol, want, r.After[k]), c)
+		}
+	}
+}
+
+// keyConns: the connections that sent a request naming target key `key` (any DB).
+func keyConns(r *Run, key string) map[int]bool {
+	m := map[int]bool{}
+	for _, q := range r.Log {
+		cmd := q.Cmd()
+		if cmd == "select" || len(q.Args) < 2 {
+			continue
+		}
+		if string(q.Args[1]) == key || (cmd == "xgroup" && len(q.Args) >= 3 && string(q.Args[2]) == key) {
+			m[q.Conn] = true
+		}
+	}
+	return m
+}
+
+// cellConns: the connections that sent a request naming key `k.Key` while in DB `k.DB`.
+func cellConns(r *Run, k DK) map[int]bool {
+	m := map[int]bool{}
+	for _, q := range r.Log {
+		cmd := q.Cmd()
+		if cmd == "select" || len(q.Args) < 2 || q.DB != k.DB {
+			continue
+		}
+		if string(q.Args[1]) == k.Key || (cmd == "xgroup" && len(q.Args) >= 3 && string(q.Args[2]) == k.Key) {
+			m[q.Conn] = true
+		}
+	}
+	return m
+}
+
+// CheckCells: N workers (mode send / sendbisync) against the per-cell sequential oracle. Everything that is replayed
+// to one target key must come from ONE connection (routing by the key an entry is replayed to), so every cell sees its
+// snapshot keys in stream order whatever the interleaving: replace / ignore - exact final value of every cell; error -
+// fails iff the oracle fails somewhere, cells the target held are untouched, and when nothing fails every cell is exact.
+// Violation vs pin as in CheckSeq: collision cells and the one-connection rule for COLLIDING target keys are pinned by
+// the ops c20pin / c20route (EmitPin, EmitRoute), not reported as violations; for every other key one connection per
+// target key is the routing premise of the property's "chunks of one value in order" and stays a violation.
+func CheckCells(s *vfutil.Session, c *Case, r *Run) {
+	coll := c.CollisionCells()
+	for _, kv := range c.TargetKVs() {
+		cell := DK{kv.DB, string(kv.Key)}
+		if cs := cellConns(r, cell); len(cs) > 1 {
+			if coll[cell] {
+				s.Count("pin_collide_two_connections")
+				continue
+			}
+			viol(s, "key-on-two-connections", fmt.Sprintf("requests for cell (db %d, %q) - one snapshot value - arrived on %d connections: two workers write one key", kv.DB, kv.Key, len(cs)), c)
+			break // the consequences (merged value, error not raised) are reported below when this schedule shows them
+		}
+		if cs := keyConns(r, string(kv.Key)); len(cs) > 1 {
+			s.Count("pin_key_name_on_two_connections") // one key NAME in two cells on two workers: pinned by c20route only
+		}
+	}
+	if !c.Simple() {
+		return
+	}
+	cur, failAt, ok := seqOracle(c, r)
+	if !ok {
+		s.Count("seq_oracle_skipped")
+		return
+	}
+	s.Count("mon_cells")
+	if len(coll) > 0 {
+		s.Count("mon_cells_colliding_" + c.Pol)
+	}
+	kvs := c.KVList()
+	if c.Pol != "replace" {
+		for k, v := range r.Before {
+			if v != nil && !SameVal(v, r.After[k]) {
+				viol(s, c.Pol+"-modified", fmt.Sprintf("parallel replay, policy %s: cell (db %d, %q) the target held at the start changed: %+v -> %+v", c.Pol, k.DB, k.Key, v, r.After[k]), c)
+			}
+		}
+	}
+	if failAt >= 0 {
+		fc := DK{c.TDBOf(kvs[failAt].DB), string(c.TKey(kvs[failAt].Key))}
+		if coll[fc] && r.Before[fc] == nil {
+			s.Count("pin_collide_stop")
+			return
+		}
+		s.Count("mon_cells_error_fails")
+		if r.Final != "err-exists" {
+			viol(s, "error-not-raised", fmt.Sprintf("policy error: key index %d meets a key the target held, SendRdb ended %s", failAt, r.Final), c)
+		}
+		return
+	}
+	if c.Pol == "error" && len(coll) > 0 {
+		return // unreachable: a collision under error stops the oracle
+	}
+	if r.Final != "ok" {
+		viol(s, "unexpected-error", fmt.Sprintf("SendRdb failed with %s: %s", r.Final, r.ErrText), c)
+		return
+	}
+	for _, k := range c.Keys() {
+		var want *vfdoubles.Val
+		st := cur[k]
+		if st != nil {
+			want = st.val
+		}
+		if coll[k] && !(c.Pol != "replace" && r.Before[k] != nil) {
+			s.Count("pin_collide_cell")
+			notMerged(s, c, r, k)
+			continue
+		}
+		if !SameVal(want, r.After[k]) {
+			viol(s, "seq-final", fmt.Sprintf("parallel replay, cell (db %d, %q): policy %s applied key after key leaves %+v, the target holds %+v", k.DB, k.Key, c.Pol, want, r.After[k]), c)
+		}
+	}
+	snap := map[DK]bool{}
+	for _, kv := range c.TargetKVs() {
+		snap[DK{kv.DB, string(kv.Key)}] = true
+	}
+	CheckFiltered(s, c, r, snap)
+}
+
+// EmitPin: colliding snapshots through N workers. What every cell ends with - nothing / the target's own value / the
+// value of snapshot key number i / something else (a merge) - and the outcome, against ONE worker of the model over the
+// same stream (driver op c20pin; conc_is_one_worker says they agree under replace / ignore). A difference is a broken
+// tie that names the pinned reading, not a violation of the property.
+func EmitPin(s *vfutil.Session, idx int, c *Case, r *Run) bool {
+	if !c.Simple() || r.Final != "ok" || c.Pol == "error" {
+		return false
+	}
+	kvs := c.KVList()
+	fb := firstBins(r)
+	if len(fb) != len(kvs) {
+		return false
+	}
+	mode := "wplain"
+	if c.Mode == "sendbisync" || c.Mode == "bisync" {
+		mode = "bisync"
+	}
+	op, ks := OpLine("c20pin", idx, c, r, mode)
+	out := []string{fmt.Sprintf("#%d r %s", idx, r.Final)}
+	for _, k := range ks {
+		cls := "other"
+		switch {
+		case r.After[k] == nil:
+			cls = "absent"
+		case r.Before[k] != nil && SameVal(r.Before[k], r.After[k]):
+			cls = "old"
+		default:
+			for i, kv := range kvs {
+				if c.Filtered(kv.DB, kv.Key) {
+					continue
+				}
+				tkv := c.TargetKV(i, kv)
+				if tkv.DB != k.DB || string(tkv.Key) != k.Key {
+					continue
+				}
+				e := fb[i]
+				via := c.Restore && e.CanRestore && e.DumpSize <= c.MaxBulk && !e.Splited
+				if SameVal(ExpectVal(tkv, via, BubbleNowMs), r.After[k]) {
+					cls = fmt.Sprintf("by:%d", i)
+					break
+				}
+			}
+		}
+		out = append(out, fmt.Sprintf("#%d p %d %s %s", idx, k.DB, vfutil.HexS(k.Key), cls))
+	}
+	s.Op(op, out...)
+	return true
+}
+
+// EmitRoute: the partition of the snapshot's keys over the replay workers as the REAL distributor made it (connection
+// of the first request naming the key), against the model's `routeAll` (driver op c20route). Only for complete runs.
+func EmitRoute(s *vfutil.Session, idx int, c *Case, r *Run) bool {
+	if r.Final != "ok" {
+		return false
+	}
+	kvs := c.KVList()
+	class := map[int]int{}
+	var out []string
+	for _, kv := range kvs {
+		if c.Filtered(kv.DB, kv.Key) {
+			out = append(out, "-")
+			continue
+		}
+		cs := keyConns(r, string(c.TKey(kv.Key)))
+		if len(cs) == 0 {
+			return false
+		}
+		if len(cs) > 1 {
+			out = append(out, "multi") // the model never says so: shows as a difference
+			continue
+		}
+		for cn := range cs {
+			if _, ok := class[cn]; !ok {
+				class[cn] = len(class)
+			}
+			out = append(out, strconv.Itoa(class[cn]))
+		}
+	}
+	var ents []string
+	for _, e := range r.Ents {
+		ents = append(ents, e.Render(false))
+	}
+	tok := ""
+	if c.HashTag {
+		tok += " rht=1"
+	}
+	if len(c.FDB) > 0 {
+		var ds []string
+		for _, d := range c.FDB {
+			ds = append(ds, strconv.Itoa(d))
+		}
+		tok += " fdb=" + strings.Join(ds, ",")
+	}
+	var ps []string
+	for _, p := range ReservedPrefixes() {
+		ps = append(ps, vfutil.HexS(p))
+	}
+	tok += " fpre=" + strings.Join(append(ps, c.FPre...), ",")
+	s.Op(fmt.Sprintf("c20route tag=%d n=%d%s ents=%s", idx, c.Parallel, tok, strings.Join(ents, ";")),
+		fmt.Sprintf("#%d w %s", idx, strings.Join(out, " ")))
+	return true
 }
 
 // CheckParallel: the monitor for mode "send" (the real SendRdb with several
@@ -797,7 +1327,7 @@ func CheckParallel(s *vfutil.Session, c *Case, r *Run) {
 		}
 		restorable := false
 		for _, e := range r.Ents {
-			if string(c.TKey(e.Key)) == string(kv.Key) && c.TDBOf(e.DB) == kv.DB {
+			if string(c.TKey(e.Key)) == string(kv.Key) && c.TDBOf(e.DB) == kv.DB && !c.Filtered(e.DB, e.Key) {
 				restorable = c.Restore && e.CanRestore && e.DumpSize <= c.MaxBulk && !e.Splited && !c.IsBad(kv.Key)
 			}
 		}
@@ -843,7 +1373,7 @@ func CheckParallel(s *vfutil.Session, c *Case, r *Run) {
 		}
 		viaRestore := false
 		for _, e := range r.Ents {
-			if string(c.TKey(e.Key)) == k.Key && c.TDBOf(e.DB) == k.DB {
+			if string(c.TKey(e.Key)) == k.Key && c.TDBOf(e.DB) == k.DB && !c.Filtered(e.DB, e.Key) {
 				viaRestore = c.Restore && e.CanRestore && e.DumpSize <= c.MaxBulk && !e.Splited && !c.IsBad(kv.Key)
 				break
 			}
@@ -1089,6 +1619,215 @@ func GenCase(r *vfutil.Rand, mode string, dbs int) *Case {
 		c.Pre = append(c.Pre, Pre{Key: vfutil.HexS("foreign"), Kind: vfutil.Pick(r, Kinds), TTL: int64(r.Intn(2) * 5000)})
 	}
 	// one prior value per (db, key)
+	seenPre := map[string]bool{}
+	var pre []Pre
+	for _, p := range c.Pre {
+		id := fmt.Sprintf("%d/%s", p.DB, p.Key)
+		if !seenPre[id] {
+			seenPre[id] = true
+			pre = append(pre, p)
+		}
+	}
+	c.Pre = pre
+	return c
+}
+
+// Monitors: the property monitors for one run of ONE worker (modes plain / wplain / bisync).
+func Monitors(s *vfutil.Session, c *Case, r *Run) {
+	if !c.Collides() {
+		Check(s, c, r) // assumes one snapshot key per target cell
+	}
+	if c.Simple() {
+		CheckSeq(s, c, r)
+	}
+}
+
+func simpleKV(db int, key string, ty int, tag string, exp int) KVSpec {
+	kv := KVSpec{DB: db, Key: vfutil.HexS(key), Type: ty, Exp: exp}
+	switch ty {
+	case 0:
+		kv.Str = vfutil.HexS("val-" + tag)
+	case 1:
+		kv.Items = []string{vfutil.HexS(tag + "1"), vfutil.HexS(tag + "2")}
+	default:
+		kv.Type = 4
+		kv.Items = []string{vfutil.HexS(tag + "f1"), vfutil.HexS("v1"), vfutil.HexS(tag + "f2"), vfutil.HexS("v2"), vfutil.HexS(tag + "f3"), vfutil.HexS("v3")}
+	}
+	return kv
+}
+
+// CollideKinds: how two snapshot keys come to be replayed to one target cell.
+var CollideKinds = []string{"targetdb", "dbmap", "hashtag", "dupkey"}
+
+// collideBase: two snapshot keys A (first in the stream) and B on one target cell, plus a bystander.
+// The tagged pair hashes to different workers (of 3) when routed by the SOURCE key.
+func collideBase(mode, kind string, tyA, tyB int, exp int) *Case {
+	c := &Case{Mode: mode, MaxBulk: 1 << 29, Ver: "7.0.0"}
+	switch kind {
+	case "targetdb":
+		c.TDB = 2 // every source DB goes to DB 1
+		c.KVs = []KVSpec{simpleKV(0, "k", tyA, "A", exp), simpleKV(0, "other", 0, "O", 0), simpleKV(1, "k", tyB, "B", 0)}
+	case "dbmap":
+		c.DBMap = [][2]int{{0, 2}, {1, 2}}
+		c.KVs = []KVSpec{simpleKV(0, "k", tyA, "A", exp), simpleKV(0, "other", 0, "O", 0), simpleKV(1, "k", tyB, "B", 0)}
+	case "hashtag":
+		c.HashTag = true
+		c.KVs = []KVSpec{simpleKV(0, "{a}b0", tyA, "A", exp), simpleKV(0, "other", 0, "O", 0), simpleKV(0, "ab0", tyB, "B", 0)}
+	default: // a key twice in one DB: not a file Redis writes, not refused by the parser
+		c.KVs = []KVSpec{simpleKV(0, "k", tyA, "A", exp), simpleKV(0, "other", 0, "O", 0), simpleKV(0, "k", tyB, "B", 0)}
+	}
+	return c
+}
+
+// ExhaustiveCollide: two snapshot keys on one target cell: kind x policy x restore on/off x (string + hash | split hash +
+// list | hash + split hash) x the cell held by the target or not.
+func ExhaustiveCollide(mode string) []*Case {
+	var out []*Case
+	for _, kind := range CollideKinds {
+		for _, pol := range []string{"replace", "ignore", "error"} {
+			for _, restore := range []bool{false, true} {
+				for shape := 0; shape < 3; shape++ {
+					for pm := 0; pm < 2; pm++ {
+						tyA, tyB, thr := 0, 4, 0
+						switch shape {
+						case 1:
+							tyA, tyB, thr = 4, 1, 1
+						case 2:
+							tyA, tyB, thr = 4, 4, 1
+						}
+						c := collideBase(mode, kind, tyA, tyB, []int{0, 2}[shape%2])
+						c.Pol, c.Restore, c.Thr = pol, restore, thr
+						if pm == 1 {
+							cell := c.Cell(c.KVs[0])
+							c.Pre = []Pre{{DB: cell.DB, Key: vfutil.HexS(cell.Key), Kind: "string", TTL: 60000}}
+						}
+						out = append(out, c)
+					}
+				}
+			}
+		}
+	}
+	return out
+}
+
+// ExhaustiveFilter: `a` and a split hash `h` in DB 0, `z` and `y` in DB 1 (a filtered `z` is the FIRST entry of its DB: the
+// SELECT it costs is the one `y` relies on); an output filter (DB black list / key prefix
+// black list) x policy x restore x (nothing held | the filtered key's cells held | a kept key's cell held) x TargetDbMap.
+func ExhaustiveFilter(mode string) []*Case {
+	var out []*Case
+	type flt struct {
+		fdb  []int
+		fpre []string
+	}
+	for _, f := range []flt{{fdb: []int{0}}, {fdb: []int{1}}, {fpre: []string{"h"}}, {fpre: []string{"a", "z"}}, {fdb: []int{1}, fpre: []string{"a"}}} {
+		for _, pol := range []string{"replace", "ignore", "error"} {
+			for _, restore := range []bool{false, true} {
+				for pm := 0; pm < 3; pm++ {
+					for _, dm := range [][][2]int{nil, {{1, 0}}} {
+						c := &Case{Mode: mode, Pol: pol, Restore: restore, Thr: 1, MaxBulk: 1 << 29, Ver: "7.0.0", FDB: f.fdb, DBMap: dm,
+							KVs: []KVSpec{simpleKV(0, "a", 0, "A", 2), simpleKV(0, "h", 4, "H", 0), simpleKV(1, "z", 1, "Z", 0), simpleKV(1, "y", 0, "Y", 0)}}
+						for _, p := range f.fpre {
+							c.FPre = append(c.FPre, vfutil.HexS(p))
+						}
+						for _, k := range c.KVs {
+							filtered := c.Filtered(k.DB, vfutil.UnHex(k.Key))
+							if (pm == 1 && filtered) || (pm == 2 && !filtered) {
+								cell := c.Cell(k)
+								c.Pre = append(c.Pre, Pre{DB: cell.DB, Key: vfutil.HexS(cell.Key), Kind: "list"})
+								if filtered && cell.DB != k.DB {
+									c.Pre = append(c.Pre, Pre{DB: k.DB, Key: k.Key, Kind: "set"})
+								}
+							}
+						}
+						out = append(out, c)
+					}
+				}
+			}
+		}
+	}
+	return out
+}
+
+// BackPressure: many keys (strings, lists, split hashes; two DBs; a tagged pair on one target key when replaceHashTag is
+// on) through the real SendRdb with pipes of 1-2 entries per worker and a slow target: every send of the distributor
+// meets a full pipe. Everything of one target key must still come from ONE connection, in order.
+func BackPressure(mode string) []*Case {
+	var out []*Case
+	for _, pol := range []string{"replace", "ignore", "error"} {
+		for _, par := range []int{2, 3, 4} {
+			for _, mult := range []int{1, 2} {
+				for _, ht := range []bool{false, true} {
+					c := &Case{Mode: mode, Pol: pol, Restore: par%2 == 0, Thr: 1, MaxBulk: 1 << 29, Ver: "7.0.0", Parallel: par,
+						PipeSize: par * mult, Slow: 1, HashTag: ht}
+					for i := 0; i < 14; i++ {
+						db := 0
+						if i >= 9 {
+							db = 1
+						}
+						key := fmt.Sprintf("bp%d", i)
+						if ht && i%3 == 0 {
+							key = fmt.Sprintf("{t%d}bp", i)
+						}
+						c.KVs = append(c.KVs, simpleKV(db, key, []int{0, 4, 1}[i%3], fmt.Sprintf("V%d", i), 0))
+						if pol != "error" && i%4 == 1 {
+							cell := c.Cell(c.KVs[i])
+							c.Pre = append(c.Pre, Pre{DB: cell.DB, Key: vfutil.HexS(cell.Key), Kind: "list"})
+						}
+					}
+					if ht {
+						c.KVs = append(c.KVs, simpleKV(1, "{a}b0", 4, "A", 0), simpleKV(1, "ab0", 4, "B", 0))
+					}
+					out = append(out, c)
+				}
+			}
+		}
+	}
+	return out
+}
+
+// GenCollide: random colliding snapshots and filters (simple values: string / list / hash).
+func GenCollide(r *vfutil.Rand, mode string) *Case {
+	ty := func() int { return vfutil.Pick(r, []int{0, 1, 4, 4}) }
+	c := collideBase(mode, vfutil.Pick(r, CollideKinds), ty(), ty(), vfutil.Pick(r, []int{0, 2}))
+	c.Pol = vfutil.Pick(r, []string{"replace", "ignore", "error"})
+	c.Restore = r.Bool()
+	c.Ver = vfutil.Pick(r, []string{"7.0.0", "4.0.0"})
+	if r.Bool() {
+		c.Thr = 1
+	}
+	if r.Chance(1, 3) {
+		// a third key on the same cell / a second colliding pair
+		k := c.KVs[len(c.KVs)-1]
+		k2 := simpleKV(k.DB, string(vfutil.UnHex(k.Key)), ty(), "C", 0)
+		if c.HashTag {
+			k2.Key = vfutil.HexS("a{b0}")
+		} else if c.TDB > 0 || len(c.DBMap) > 0 {
+			k2.DB = 2
+			if len(c.DBMap) > 0 {
+				c.DBMap = append(c.DBMap, [2]int{2, 2})
+			}
+		}
+		c.KVs = append(c.KVs, k2)
+	}
+	switch r.Intn(4) {
+	case 0:
+		c.FDB = []int{vfutil.Pick(r, []int{0, 1})}
+	case 1:
+		c.FPre = []string{vfutil.HexS(vfutil.Pick(r, []string{"o", "k", "ab", "{a"}))}
+	}
+	for _, k := range c.KVs {
+		cell := c.Cell(k)
+		if r.Chance(1, 3) {
+			p := Pre{DB: cell.DB, Key: vfutil.HexS(cell.Key), Kind: vfutil.Pick(r, Kinds)}
+			if r.Chance(1, 3) {
+				p.TTL = int64(r.Range(1000, 900000))
+			}
+			c.Pre = append(c.Pre, p)
+		}
+		if c.Filtered(k.DB, vfutil.UnHex(k.Key)) && r.Bool() {
+			c.Pre = append(c.Pre, Pre{DB: k.DB, Key: k.Key, Kind: vfutil.Pick(r, Kinds)})
+		}
+	}
 	seenPre := map[string]bool{}
 	var pre []Pre
 	for _, p := range c.Pre {
@@ -1381,5 +2120,31 @@ func Stats(s *vfutil.Session, c *Case, r *Run, src string) {
 	}
 	if len(c.Pre) > 0 {
 		s.Distinct(c.JSON())
+	}
+	if c.Collides() {
+		s.Count("collide_" + c.Pol)
+		switch {
+		case c.TDB > 0:
+			s.Count("collide_by_targetdb")
+		case len(c.DBMap) > 0:
+			s.Count("collide_by_dbmap")
+		case c.HashTag:
+			s.Count("collide_by_hashtag")
+		default:
+			s.Count("collide_by_dupkey")
+		}
+	}
+	if c.PipeSize > 0 {
+		per := 1
+		if c.Parallel > 0 && c.PipeSize/c.Parallel > 1 {
+			per = c.PipeSize / c.Parallel
+		}
+		s.Count(fmt.Sprintf("backpressure_pipe_%d_per_worker", per))
+	}
+	if len(c.FDB) > 0 {
+		s.Count("filter_db")
+	}
+	if len(c.FPre) > 0 {
+		s.Count("filter_key_prefix")
 	}
 }
